@@ -498,6 +498,14 @@ def normalise(fn, world=None, modname=None, cls=None, primitives=(),
         fn = inl.expand(fn)
         info["inlined"] = inl.inlined
     parent = getattr(fn, "_parent", None)
+    if world is not None and modname is not None:
+        # statements that only write to a module-level logger say nothing
+        # any rule asks about (assumption: logging neither raises nor
+        # changes what is computed)
+        fn_l = drop_logging(fn, world, modname)
+        if fn_l is not fn:
+            fn = fn_l
+            info["inlined"] = info["inlined"] + ["<logging>"]
     if any(isinstance(n, ast.YieldFrom) and isinstance(
             n.value, ast.GeneratorExp) for n in ast.walk(fn)):
         fn = acopy(fn)
